@@ -354,7 +354,9 @@ def _make_p2(param):
         assume(0 <= ti < n and 0 <= flagbits < 8)
         cti = next(i for i in range(n) if ti == i)
         cfb = next(i for i in range(8) if flagbits == i)
-        with NoTracing():
+        from vt import stubs
+
+        with NoTracing(), stubs.suspended():
             return _p2_scenario(cti, detail, cfb)
 
     return p2
